@@ -216,6 +216,24 @@ let check_tokens (cfg : econfig) (ops : eop list) (tr : tok list) : unit =
               if on "C07" then bad "C07" "role lost while waiting for the consume lag, but the event was still handled";
               if on "C11" then bad "C11" "process kept working after its wait was cancelled by the loss of its role";
               ignore t) rest);
+       (* progress (C01 "no run is left stranded"; C15 "eventually replaced"; C14 "not lost"): in an operation WITHOUT any planned
+          fault in which the consumer received an event, no call failed or was cancelled, the process did not wait, and no user
+          function returned an error, the event ends acknowledged. A handler that fails on its own — no adapter failed, no user
+          function failed — fails again on every redelivery: the consumer is stuck on that event and everything behind it *)
+       (let planned_fault = (match op with OStep (_, _, pl) -> pl <> [] | _ -> true) in
+        let any_failed = List.exists (fun t -> match tok_res t with Some r -> failed r | None -> false) seg in
+        (* parked for the consume lag right after the receive (the back-off wait after a failure is not a reason) *)
+        let waited = (match body with TCall (KTW, _, _, _) :: _ -> true | _ -> false) || List.exists (function TApi _ -> true | _ -> false) seg in
+        let any_user_err = List.exists (function TUser (_, _, _, _, UErr _) -> true | _ -> false) seg in
+        let tag = (if on "C01" then Some "C01"
+                   else match u with
+                     | EDelete when on "C15" -> Some "C15"
+                     | EHook _ when on "C14" -> Some "C14"
+                     | _ -> None) in
+        match tag, recv with
+        | Some tag, Some (TRecv e) when not planned_fault && not any_failed && not waited && not any_user_err && not has_ack ->
+          bad tag "a consumer received the event of run %d (version %d) and gave up on it although no adapter call failed and no user function returned an error: the event is retried for ever" (ni e.e_run) (zi e.e_ver)
+        | _ -> ());
        if on "C07" then begin
          if has_ack && pre_failed then bad "C07" "event acknowledged although a call failed while handling it";
          if has_ack && user_err && not paused_store then bad "C07" "event acknowledged although its handler failed";
@@ -359,6 +377,25 @@ let check_tokens (cfg : econfig) (ops : eop list) (tr : tok list) : unit =
     (if on "C11" then begin
        if List.exists (function TApi z -> zi z = -3 | _ -> false) seg then bad "C11" "an adapter was called after Stop had returned";
        if List.exists (function TApi z -> zi z = -4 | _ -> false) seg then bad "C11" "a receiver or sender was still open after Stop had returned"
+     end);
+    (* C16: "the object is persisted iff a declared next status is returned with a nil error" — the IF direction, per invocation: in
+       an operation without a planned fault in which no call failed, a step / callback / timeout function that returned a
+       declared destination (a self-loop included) is followed, before the next invocation, by the write of that run at that status *)
+    (if on "C16" then begin
+       let no_fault = (match op with OStep (_, _, pl) | OCallback (_, _, pl) -> pl = [] | _ -> false) in
+       let any_failed = List.exists (fun t -> match tok_res t with Some r -> failed r | None -> false) seg in
+       if no_fault && not any_failed then begin
+         let rec scan = function
+           | [] -> ()
+           | TUser (fu, view, Some pers, _, URet z) :: rest when is_step_fn fu && not (skip_status z)
+                                                              && zi view.r_status = zi pers.r_status && validate_transition g view.r_status z ->
+             let rec until_next = function [] -> [] | TUser (fu', _, _, _, _) :: _ when is_step_fn fu' -> [] | x :: t -> x :: until_next t in
+             if not (List.exists (function TStore (Some _, r, a) -> eff a && r.r_run = view.r_run && zi r.r_status = zi z | _ -> false) (until_next rest)) then
+               bad "C16" "function %d returned the declared status %d for run %d (at status %d) with a nil error, but nothing was persisted" (zi (ufun_code fu)) (zi z) (ni view.r_run) (zi view.r_status);
+             scan rest
+           | _ :: rest -> scan rest in
+         scan seg
+       end
      end);
     (* C15: a failing delete function leaves the run RequestedDataDeleted: no write, no Ack *)
     (if on "C15" then begin
